@@ -1,29 +1,147 @@
 (* GenAgree/Xform.v — the definitions generated from /repo's current path.py for
    C10 agree with the hand-written model Model/Xform.v.  Recompiled on every check
-   run, lemma by lemma (split on the AGREE markers).  Only bez2poly (the first
-   statement of scale_bezier) is inside the translator's subset: translate /
-   rotate / scale / transform end in a constructor call (see
-   tools/py2v_tables/c10.py); poly2bez's kernel polynomial2bezier is tied in
-   GenAgree/BezierN.v. *)
+   run, lemma by lemma (split on the AGREE markers).
+
+   translate / rotate / scale on Line, QuadraticBezier, CubicBezier objects: the
+   generated definition returns the control points handed to the constructor; it
+   equals the model kernel followed by bpoints2bezier (xopt: XOk q -> Some q).
+   rotate: exp(1j*radians(degs)) is (cos_ T (radians_ T degs), sin_ T ...) =
+   cs_of_degs T degs for an ARBITRARY transcendental record T.
+   Arc branches: the generated definition returns the tuple of constructor
+   arguments (start, radius, rotation, large_arc, sweep, end); feeding it to the
+   model of the constructor (init_of = arc_init) gives the model kernel; the
+   refusal of sy != sx is None on both sides.
+   transform() is outside the translator's subset (numpy matrix code). *)
 From Coq Require Import ZArith List Bool Field.
 From SVP Require Import Base.Num Base.Cplx Base.Poly Base.FieldTac Base.Agree
      Model.Bezier Model.BezierN Model.Arc Model.Xform.
 From SVP Require Import Gen.GenXform.
 Import ListNotations.
 Section A.
-Context {K : Type} (N : Num K) (OK : NumFieldOK N).
+Context {K : Type} (N : Num K) (OK : NumFieldOK N) (T : NumT K).
 Add Field KF : (Fth OK).
+Definition xopt {A : Type} (r : xres A) : option A :=
+  match r with XOk a => Some a | _ => None end.
+Definition ctor_args : Type := (Cplx K * Cplx K * K * bool * bool * Cplx K)%type.
+(* Arc(start, radius, rotation, large_arc, sweep, end) *)
+Definition init_of (a : ctor_args) : ArcP K :=
+  let '(s, r, rot, l, sw, e) := a in arc_init N T s r rot l sw e.
+Ltac bez_agree :=
+  intros; unfold xopt, scale_bezier, bpoints2bezier, bez_translate, bez_rotate, bez_default_origin,
+                 bez_point, rotate_point, cs_of_degs, scale_c, add_last, bezier2polynomial, poly2bez, half;
+  cbn [map]; agree_field OK.
+Ltac arc_args :=
+  repeat match goal with
+  | |- arc_init _ _ _ _ _ _ _ _ = arc_init _ _ _ _ _ _ _ _ => f_equal
+  | |- (_, _) = (_, _) => apply cplx_eq; cbn [fst snd]
+  end; try reflexivity; try ring.
+Ltac arc_agree :=
+  cbv beta zeta;
+  unfold xopt, xmap, arc_translate, arc_rotate, arc_scale, rotate_point, cs_of_degs;
+  cbn [a_start a_radius a_rotation a_large a_sweep a_end a_center];
+  try match goal with |- context [eqb N ?a ?b] => destruct (eqb N a b) end;
+  cbn [option_map init_of]; try reflexivity;
+  f_equal; cunfold; arc_args.
+(* the header names no generated definition, so that one lost translation does not
+   take the other lemmas down *)
 (* HEADER END *)
 
 (* AGREE gen_bez2poly_Line *)
 Lemma agree_bez2poly_Line s e : gen_bez2poly_Line N s e = bezier2polynomial N [s; e].
 Proof. agree_ring. Qed.
+(* AGREE gen_translate_Line *)
+Lemma agree_translate_Line s e z0 :
+  gen_translate_Line N s e z0 = xopt (bpoints2bezier (bez_translate N z0 [s; e])).
+Proof. bez_agree. Qed.
+(* AGREE gen_rotate_Line *)
+Lemma agree_rotate_Line s e degs o :
+  gen_rotate_Line N T s e degs o = xopt (bpoints2bezier (bez_rotate N (cs_of_degs T degs) o [s; e])).
+Proof. bez_agree. Qed.
+(* AGREE gen_rotate_Line_default *)
+Lemma agree_rotate_Line_default s e degs :
+  gen_rotate_Line_default N T s e degs
+  = xopt (bpoints2bezier (bez_rotate N (cs_of_degs T degs) (bez_default_origin N [s; e]) [s; e])).
+Proof. bez_agree. Qed.
+(* AGREE gen_scale_Line *)
+Lemma agree_scale_Line s e sx sy o :
+  gen_scale_Line N s e sx sy o = xopt (scale_bezier N sx (Some sy) o [s; e]).
+Proof. bez_agree. Qed.
+(* AGREE gen_scale_Line_uniform *)
+Lemma agree_scale_Line_uniform s e sx o :
+  gen_scale_Line_uniform N s e sx o = xopt (scale_bezier N sx None o [s; e]).
+Proof. bez_agree. Qed.
+
 (* AGREE gen_bez2poly_Quad *)
 Lemma agree_bez2poly_Quad s c e : gen_bez2poly_Quad N s c e = bezier2polynomial N [s; c; e].
 Proof. agree_ring. Qed.
+(* AGREE gen_translate_Quad *)
+Lemma agree_translate_Quad s c e z0 :
+  gen_translate_Quad N s c e z0 = xopt (bpoints2bezier (bez_translate N z0 [s; c; e])).
+Proof. bez_agree. Qed.
+(* AGREE gen_rotate_Quad *)
+Lemma agree_rotate_Quad s c e degs o :
+  gen_rotate_Quad N T s c e degs o = xopt (bpoints2bezier (bez_rotate N (cs_of_degs T degs) o [s; c; e])).
+Proof. bez_agree. Qed.
+(* AGREE gen_rotate_Quad_default *)
+Lemma agree_rotate_Quad_default s c e degs :
+  gen_rotate_Quad_default N T s c e degs
+  = xopt (bpoints2bezier (bez_rotate N (cs_of_degs T degs) (bez_default_origin N [s; c; e]) [s; c; e])).
+Proof. bez_agree. Qed.
+(* AGREE gen_scale_Quad *)
+Lemma agree_scale_Quad s c e sx sy o :
+  gen_scale_Quad N s c e sx sy o = xopt (scale_bezier N sx (Some sy) o [s; c; e]).
+Proof. bez_agree. Qed.
+(* AGREE gen_scale_Quad_uniform *)
+Lemma agree_scale_Quad_uniform s c e sx o :
+  gen_scale_Quad_uniform N s c e sx o = xopt (scale_bezier N sx None o [s; c; e]).
+Proof. bez_agree. Qed.
+
 (* AGREE gen_bez2poly_Cubic *)
-Lemma agree_bez2poly_Cubic s c1 c2 e :
-  gen_bez2poly_Cubic N s c1 c2 e = bezier2polynomial N [s; c1; c2; e].
+Lemma agree_bez2poly_Cubic s c1 c2 e : gen_bez2poly_Cubic N s c1 c2 e = bezier2polynomial N [s; c1; c2; e].
 Proof. agree_ring. Qed.
+(* AGREE gen_translate_Cubic *)
+Lemma agree_translate_Cubic s c1 c2 e z0 :
+  gen_translate_Cubic N s c1 c2 e z0 = xopt (bpoints2bezier (bez_translate N z0 [s; c1; c2; e])).
+Proof. bez_agree. Qed.
+(* AGREE gen_rotate_Cubic *)
+Lemma agree_rotate_Cubic s c1 c2 e degs o :
+  gen_rotate_Cubic N T s c1 c2 e degs o = xopt (bpoints2bezier (bez_rotate N (cs_of_degs T degs) o [s; c1; c2; e])).
+Proof. bez_agree. Qed.
+(* AGREE gen_rotate_Cubic_default *)
+Lemma agree_rotate_Cubic_default s c1 c2 e degs :
+  gen_rotate_Cubic_default N T s c1 c2 e degs
+  = xopt (bpoints2bezier (bez_rotate N (cs_of_degs T degs) (bez_default_origin N [s; c1; c2; e]) [s; c1; c2; e])).
+Proof. bez_agree. Qed.
+(* AGREE gen_scale_Cubic *)
+Lemma agree_scale_Cubic s c1 c2 e sx sy o :
+  gen_scale_Cubic N s c1 c2 e sx sy o = xopt (scale_bezier N sx (Some sy) o [s; c1; c2; e]).
+Proof. bez_agree. Qed.
+(* AGREE gen_scale_Cubic_uniform *)
+Lemma agree_scale_Cubic_uniform s c1 c2 e sx o :
+  gen_scale_Cubic_uniform N s c1 c2 e sx o = xopt (scale_bezier N sx None o [s; c1; c2; e]).
+Proof. bez_agree. Qed.
+
+(* AGREE gen_translate_Arc *)
+Lemma agree_translate_Arc s r rot l sw e c th d ph rm z0 :
+  option_map init_of (gen_translate_Arc N s r rot l sw e c th d ph rm z0) = Some (arc_translate N T z0 (mkArcP s r rot l sw e c th d ph rm)).
+Proof. intros; unfold gen_translate_Arc; arc_agree. Qed.
+(* AGREE gen_rotate_Arc *)
+Lemma agree_rotate_Arc s r rot l sw e c th d ph rm degs o :
+  option_map init_of (gen_rotate_Arc N T s r rot l sw e c th d ph rm degs o)
+  = Some (arc_rotate N T degs (cs_of_degs T degs) o (mkArcP s r rot l sw e c th d ph rm)).
+Proof. intros; unfold gen_rotate_Arc; arc_agree. Qed.
+(* AGREE gen_rotate_Arc_default *)
+Lemma agree_rotate_Arc_default s r rot l sw e c th d ph rm degs :
+  option_map init_of (gen_rotate_Arc_default N T s r rot l sw e c th d ph rm degs)
+  = Some (arc_rotate N T degs (cs_of_degs T degs) (a_center (mkArcP s r rot l sw e c th d ph rm)) (mkArcP s r rot l sw e c th d ph rm)).
+Proof. intros; unfold gen_rotate_Arc_default; arc_agree. Qed.
+(* AGREE gen_scale_Arc *)
+Lemma agree_scale_Arc s r rot l sw e c th d ph rm sx o :
+  option_map init_of (gen_scale_Arc N s r rot l sw e c th d ph rm sx o) = xopt (arc_scale N T sx None o (mkArcP s r rot l sw e c th d ph rm)).
+Proof. intros; unfold gen_scale_Arc; arc_agree. Qed.
+(* AGREE gen_scale_Arc_sy *)
+Lemma agree_scale_Arc_sy s r rot l sw e c th d ph rm sx sy o :
+  option_map init_of (gen_scale_Arc_sy N s r rot l sw e c th d ph rm sx sy o) = xopt (arc_scale N T sx (Some sy) o (mkArcP s r rot l sw e c th d ph rm)).
+Proof. intros; unfold gen_scale_Arc_sy; arc_agree. Qed.
 (* FOOTER *)
 End A.
